@@ -8,7 +8,7 @@ cd "$WT"
 PYTHONPATH="$WT" timeout 600 /venv/bin/python "$SRC/demo.py" >/dev/null 2>&1; CLEAN=$?
 if ! git apply "$SRC/patch.diff"; then echo "$NAME: PATCH DOES NOT APPLY"; git -C /repo worktree remove --force "$WT"; exit 8; fi
 PYTHONPATH="$WT" timeout 600 /venv/bin/python "$SRC/demo.py" >/dev/null 2>&1; PATCHED=$?
-BL=$(/tmp/seed/run_baseline.sh "$WT" "$J" | grep BASELINE)
+BL=$(/verif/tools/run_baseline.sh "$WT" "$J" | grep BASELINE)
 git -C /repo worktree remove --force "$WT"
 echo "$NAME: demo_clean=$CLEAN demo_patched=$PATCHED $BL"
 case "$BL" in *" 0 broken"*) OKBL=1;; *) OKBL=0;; esac
